@@ -73,6 +73,21 @@ pub fn set_body_hook(f: BodyHook) {
     BODY_HOOK.store(f as usize, Ordering::SeqCst);
 }
 
+/// A hook called when a corpus value type is cloned (the caches clone the stored value while
+/// holding their map lock): lets a scheduler suspend a thread *inside* a read-side critical section.
+static CLONE_HOOK: AtomicUsize = AtomicUsize::new(0);
+pub fn set_clone_hook(f: fn()) {
+    CLONE_HOOK.store(f as usize, Ordering::SeqCst);
+}
+#[inline]
+pub fn clone_point() {
+    let h = CLONE_HOOK.load(Ordering::Relaxed);
+    if h != 0 {
+        let f: fn() = unsafe { std::mem::transmute::<usize, fn()>(h) };
+        f();
+    }
+}
+
 pub fn arm_exec(p: ExecPlan) {
     TL.with(|t| t.borrow_mut().plan = Some(p));
 }
